@@ -22,6 +22,7 @@ Proof. intros F TY V typed at_ okf L. exact (seq_exact F TY V typed at_ okf 0%na
 
 Section Cbor.
   Import Wire.Cbor C10.CborSpec C10.CborConv Wire.CborProofs Wire.CborEnc.
+  Local Open Scope Z_scope.
 
   Lemma cbor_skip_lemma : forall (O : eopts) (D : dopts) (i : item) (d : Z) (rest : list N),
     wf i -> plain i -> (d + sdepth (tree_of O i) < maxdepth D)%Z ->
@@ -55,6 +56,60 @@ Section Cbor.
     intros O D i d rest rest' b Hw Hp Hs Ht Hc Hd.
     rewrite (cbor_raw_lemma O D i d rest Hw Hp Hd) in Hc. injection Hc as <-.
     apply dec_enc_lemma; assumption.
+  Qed.
+
+  Lemma cbor_extent_lemma : forall (O : eopts) (D : dopts) (i : item) (d : Z) (rest : list N),
+    wf i -> plain i -> lib_supports_t D (tree_of O i) -> (tdepth_t D (tree_of O i) < maxdepth D)%Z ->
+    (d + sdepth (tree_of O i) < maxdepth D)%Z ->
+    dec_naked D (fuel_for (enc O i ++ rest)) (enc O i ++ rest) = Ok (norm_t O D i, rest)
+    /\ skip D (fuel_for (enc O i ++ rest)) d (enc O i ++ rest) = Ok rest.
+  Proof.
+    intros O D i d rest Hw Hp Hs Ht Hd. split.
+    - apply dec_enc_t_lemma; assumption.
+    - apply skip_enc_lemma; assumption.
+  Qed.
+
+  Lemma cbor_raw_redecode_t_lemma : forall (O : eopts) (D : dopts) (i : item) (d : Z) (rest rest' : list N) (b : list N),
+    wf i -> plain i -> lib_supports_t D (tree_of O i) -> (tdepth_t D (tree_of O i) < maxdepth D)%Z ->
+    capture (enc O i ++ rest) (skip D (fuel_for (enc O i ++ rest)) d (enc O i ++ rest)) = Ok (b, rest) ->
+    (d + sdepth (tree_of O i) < maxdepth D)%Z ->
+    dec_naked D (fuel_for (b ++ rest')) (b ++ rest') = Ok (norm_t O D i, rest').
+  Proof.
+    intros O D i d rest rest' b Hw Hp Hs Ht Hc Hd.
+    rewrite (cbor_raw_lemma O D i d rest Hw Hp Hd) in Hc. injection Hc as <-.
+    apply dec_enc_t_lemma; assumption.
+  Qed.
+
+  Lemma cbor_seq_t_lemma : forall (O : eopts) (D : dopts) (d : Z) (TY V : Type) (typed : TY -> item -> V)
+      (vs : list item) (ms : list (mode TY)) (tl : list N),
+    length ms = length vs -> Seq.ok_seq (CborI.Ft O D d) (CborI.ok_t O D d) vs tt tl ->
+    exists ns,
+      Seq.dec_seq (CborI.Ft O D d) TY V typed ms (Seq.bytes_seq (CborI.Ft O D d) vs tt ++ tl)
+        = Ok (Seq.project (CborI.Ft O D d) TY V typed ms vs tt, ns, tl)
+      /\ map (fun r => length (Seq.bytes_seq (CborI.Ft O D d) vs tt ++ tl) - r)%nat ns
+         = Seq.prefix_sums 0 (map (@length N) (fst (Seq.enc_seq (CborI.Ft O D d) vs tt))).
+  Proof.
+    intros O D d TY V typed vs ms tl Hl Hok.
+    destruct (seq_exact0 (CborI.Ft O D d) TY V typed at_plain (CborI.ok_t O D d) (CborI.laws_ok_t O D d)
+                vs ms tt (Seq.bytes_seq (CborI.Ft O D d) vs tt ++ tl) tl Hl Hok eq_refl) as [ns [c' [H1 [H2 H3]]]].
+    red in H3. subst c'. exists ns. split; assumption.
+  Qed.
+
+  (* an item made of times under TimeRFC3339 (UTC year 0..9999) meets the decode-side premises *)
+  Lemma cbor_time_ok_t : forall (O : eopts) (D : dopts) (d : Z) (s : Z) (n : N) (e : unit) (tl : list N),
+    eo_rfc3339 O = true -> Wire.CborTime.year_ok s = true -> (n < 1000000000)%N -> (d + 1 < maxdepth D)%Z ->
+    CborI.ok_t O D d (ITime s n) e tl.
+  Proof.
+    intros O D d s n e tl Hr Hy Hn Hd.
+    destruct (time_rfc3339_lemma O D s n Hr Hy Hn) as (H1 & H2 & _).
+    unfold CborI.ok_t. repeat apply conj.
+    - cbn [wf]. exact Hn.
+    - exact I.
+    - exact H1.
+    - rewrite H2. lia.
+    - assert (Hsd : (sdepth (tree_of O (ITime s n)) <= 1)%Z).
+      { cbn [tree_of]. destruct ((s =? zero_time_sec)%Z && (n =? 0)%N); [cbn; lia|]. rewrite Hr. cbn. lia. }
+      lia.
   Qed.
 
   Lemma cbor_seq_lemma : forall (O : eopts) (D : dopts) (d : Z) (TY V : Type) (typed : TY -> item -> V)
